@@ -15,20 +15,28 @@ package config
 //@   modifies contents(g.nodes), contents(g.from), contents(g.to)
 //@   ensures #C18.error-means-nil result#1 != nil ==> result == nil
 //@   ensures #C18.accepted-wf result#1 == nil ==> result == g && wfS(g) && depsAre(g) && hasWork(g)
+//@   ensures #C08.stage-owns-task result#1 == nil ==> (forall n string :: n in g.nodes && g.nodes[n].Task != nil ==> fresh(g.nodes[n].Task))
+//@   ensures #C08.tasks-distinct result#1 == nil ==> (forall n string, m string :: n in g.nodes && m in g.nodes && n != m && g.nodes[n].Task != nil ==> g.nodes[n].Task != g.nodes[m].Task)
 //@   loop 1 "range stages"
 //@     invariant #same g == g0 && cfg == cfg0 && stages == stages0 && wfG(g) && cfgOK(cfg)
 //@     invariant #nodes forall n string :: n in g.nodes ==> g.nodes[n] != nil && g.nodes[n].Name == n && (g.nodes[n].Pipeline != nil || g.nodes[n].Task != nil)
 //@     invariant #deps-in forall n string :: n in g.nodes ==> seqeq(g.to[n], g.nodes[n].DependsOn)
 //@     invariant #deps-out forall n string :: !(n in g.nodes) ==> len(g.to[n]) == 0
+//@     invariant #C08.owned forall n string :: n in g.nodes && g.nodes[n].Task != nil ==> fresh(g.nodes[n].Task) && allocated(g.nodes[n].Task)
+//@     invariant #C08.distinct forall n string, m string :: n in g.nodes && m in g.nodes && n != m && g.nodes[n].Task != nil ==> g.nodes[n].Task != g.nodes[m].Task
 //@   loop 2 "range g.Nodes()"
 //@     invariant #same g == g0 && wfG(g)
 //@     invariant #nodes forall n string :: n in g.nodes ==> g.nodes[n] != nil && g.nodes[n].Name == n && (g.nodes[n].Pipeline != nil || g.nodes[n].Task != nil)
 //@     invariant #deps-in forall n string :: n in g.nodes ==> seqeq(g.to[n], g.nodes[n].DependsOn)
+//@     invariant #C08.owned forall n string :: n in g.nodes && g.nodes[n].Task != nil ==> fresh(g.nodes[n].Task) && allocated(g.nodes[n].Task)
+//@     invariant #C08.distinct forall n string, m string :: n in g.nodes && m in g.nodes && n != m && g.nodes[n].Task != nil ==> g.nodes[n].Task != g.nodes[m].Task
 //@     invariant #C18.checked forall n string :: $seen[n] ==> (forall j int :: 0 <= j && j < len(g.nodes[n].DependsOn) ==> g.nodes[n].DependsOn[j] in g.nodes)
 //@   loop 3 "range stage.DependsOn"
 //@     invariant #same g == g0 && wfG(g) && stage != nil
 //@     invariant #nodes forall n string :: n in g.nodes ==> g.nodes[n] != nil && g.nodes[n].Name == n && (g.nodes[n].Pipeline != nil || g.nodes[n].Task != nil)
 //@     invariant #deps-in forall n string :: n in g.nodes ==> seqeq(g.to[n], g.nodes[n].DependsOn)
+//@     invariant #C08.owned forall n string :: n in g.nodes && g.nodes[n].Task != nil ==> fresh(g.nodes[n].Task) && allocated(g.nodes[n].Task)
+//@     invariant #C08.distinct forall n string, m string :: n in g.nodes && m in g.nodes && n != m && g.nodes[n].Task != nil ==> g.nodes[n].Task != g.nodes[m].Task
 //@     invariant #C18.checked forall n string :: $seen[n] && g.nodes[n] != stage ==> (forall j int :: 0 <= j && j < len(g.nodes[n].DependsOn) ==> g.nodes[n].DependsOn[j] in g.nodes)
 //@     invariant #C18.checking forall j int :: 0 <= j && j <= rangeindex ==> stage.DependsOn[j] in g.nodes
 
